@@ -97,7 +97,7 @@ with pop_fields (fs : fields) (vs : list tval) {struct fs} : outcome (list val *
   match fs with
   | FNil => Ok ([], vs, false)
   | FCons n _ _ t r =>
-      a <- (if negb (exported n) then Err 4
+      a <- (if negb (xexported n) then Err 4
             else if under_is_struct t then pop_ty t t vs
             else match vs with
                  | [] => Panic 2
